@@ -117,10 +117,6 @@ func checkMethod(t *testing.T, b *rt.Built, s *m.Service, meth *m.Method) bool {
 				kinds = append(kinds, "result-mutant")
 			}
 			c.Kind = rapid.SampledFrom(kinds).Draw(rt_, "kind")
-			if (c.Kind == "mutant" || c.Kind == "wire") && hasRequiredCookie(d, meth) && kf.Open("C04-required-cookie-discards-earlier-errors") {
-				stats.Excluded("C04-required-cookie-discards-earlier-errors")
-				c.Kind = "valid"
-			}
 			switch c.Kind {
 			case "mutant":
 				mut, f, ok := gen.Mutate(rt_, d, meth.Payload, c.Payload, func(name string) gen.Loc {
@@ -133,6 +129,12 @@ func checkMethod(t *testing.T, b *rt.Built, s *m.Service, meth *m.Method) bool {
 					// the body *is* this attribute: its absence is not expressible apart from an empty body
 					ok = false
 					stats.Class("skipped:body-attr-removal")
+				}
+				if ok && cookieFindingApplies(d, meth, f.Top) {
+					// (the finding loses errors found before a required cookie is read; a fault in
+					// the method's only cookie is not affected and stays in the search)
+					stats.Excluded("C04-required-cookie-discards-earlier-errors")
+					ok = false
 				}
 				if !ok {
 					c.Kind = "valid"
@@ -149,6 +151,10 @@ func checkMethod(t *testing.T, b *rt.Built, s *m.Service, meth *m.Method) bool {
 			case "wire":
 				if !wireFault(rt_, d, s, meth, c) {
 					c.Kind = "valid"
+				} else if hasRequiredCookie(d, meth) && kf.Open("C04-required-cookie-discards-earlier-errors") &&
+					!(len(meth.HTTP.Cookies) == 1 && len(c.Edits) == 1 && c.Edits[0].Op == "del_cookie") {
+					stats.Excluded("C04-required-cookie-discards-earlier-errors")
+					c.Kind, c.Edits = "valid", nil
 				}
 			}
 			msg := runCase(b, s, meth, c)
@@ -165,6 +171,16 @@ func checkMethod(t *testing.T, b *rt.Built, s *m.Service, meth *m.Method) bool {
 		fmt.Printf("C04 failing case saved: %s\n  design: %s\n  [%s] %s\n", dir, b.Run.Name, last.Kind, last.Message)
 	}
 	return ok
+}
+
+// cookieFindingApplies: the open finding C04-required-cookie-discards-earlier-errors
+// can hide a fault in attribute top (any fault but one in the method's only cookie).
+func cookieFindingApplies(d *m.Design, meth *m.Method, top string) bool {
+	if !hasRequiredCookie(d, meth) || !kf.Open("C04-required-cookie-discards-earlier-errors") {
+		return false
+	}
+	ck := meth.HTTP.Cookies
+	return !(len(ck) == 1 && ck[0].Attr == top)
 }
 
 func hasRequiredCookie(d *m.Design, meth *m.Method) bool {
